@@ -46,7 +46,12 @@ class Bytes(LeafExpr):
         if arg2 is None:
             if type(arg1) is str:
                 self.base = "utf8"
-                self.byte_str = escapeStr(arg1)
+                try:
+                    self.byte_str = escapeStr(arg1)
+                except UnicodeEncodeError as e:
+                    raise TealInputError(
+                        f"string cannot be encoded as UTF-8: {e}"
+                    ) from e
             elif type(arg1) in (bytes, bytearray):
                 self.base = "base16"
                 self.byte_str = cast(bytes | bytearray, arg1).hex()
